@@ -93,6 +93,7 @@ func classifyDial(err error) string {
 type hooks struct {
 	phase string // hdr | body-half (client side); other phases are driven by the upstream
 	fire  func()
+	miss  func() // send the signal although the phase was not reached
 	post  time.Duration
 }
 
@@ -638,7 +639,7 @@ func (x *h2conn) do(p *plan, h *hooks, res *result) {
 			}
 			_, _ = pw.Write(rest)
 		} else {
-			h.fire() // the signal must be sent in any case, the case goes on without the phase
+			h.miss() // the signal must be sent in any case; the case is inconclusive
 		}
 		_ = pw.Close()
 	}
